@@ -912,23 +912,16 @@ def run_agg(ctx, jax, jnp, C):
         flat.append(flat[0])
         continue
       it = iter(range(len(shapes)))
-      vals = []
 
       def mk(s):
         li = next(it)
         arr, c = make_values(rng, s, leaf_classes[li], levels, bound_hi=bound_hi, bound_lo=-12)
         if j == 0:
-          leaf_classes[li] = c
-        elif c != leaf_classes[li]:
-          pass
-        if kind == 'tern' and c == 'offset':
-          arr = arr - np.float32(np.round(arr.mean()))
+          leaf_classes[li] = c   # size-1 leaves degrade to 'constant'
         arr.flags.writeable = False
-        vals.append(arr)
         return jnp.asarray(arr)
 
-      trees.append(struct_map(st, mk))
-      # order of `vals` follows struct_map traversal; re-derive the jax leaf order explicitly
+      trees.append(struct_map(st, mk))   # struct_map visits leaves in JAX flattening order (asserted below)
       flat.append([np.asarray(l) for l in leaves_of(trees[-1])])
     nleaves = len(flat[0])
     sizes = [int(a.size) for a in flat[0]]
